@@ -76,7 +76,7 @@ def handle_ack_contract(world, target):
                                                             z3.And(cpresent(c.post, s, k) == cpresent(c.pre, s, k), cval(c.post, s, k) == cval(c.pre, s, k))))}
     return Contract(
         target=target, schema=world, self_obj='client', params={'namespace': 'V', 'id': 'V', 'data': 'V'},
-        requires=lambda c: dict(ccb_ok(c.pre), **{'id-came-off-the-wire': wire_value(c.a.id)}),
+        requires=lambda c: dict(ccb_ok(c.pre), **{'dom.id-came-off-the-wire': wire_value(c.a.id)}),
         cases=[Case('outstanding', when=known, post=invoked),
                Case('outstanding.callback-raises', when=known, kind='raise', exc='Exception', post=invoked),
                Case('unknown-or-repeated-id', when=lambda c: z3.Not(known(c)), update=lambda c: None)],
@@ -110,7 +110,7 @@ def client_event_effect(c, ns, id_, data, raised=False):
 def handle_event_contract(world, target):
     def req(c):
         d = dict(c13.handlers_ok(c.pre, 'client'))
-        d['wellformed-event'] = wellformed_event(c.a.data)
+        d['dom.wellformed-event'] = wellformed_event(c.a.data)
         d['dom.event-name-not-star'] = smt.vseq(c.a.data)[0] != c13.STAR
         d['dom.ns-not-star'] = eff_ns(c.a.namespace) != c13.STAR
         for n in c13.CLIENT_INTERNAL:
